@@ -69,7 +69,7 @@ package replication
 //@   before regattapb.SnapshotClient.Stream assert [C07.recover.table+C05] in != nil && bytesOf(in.Table) == bytesOf(w.table)
 //@   before snapshot.(*snapshotFile).Sync assert [C05.recover.complete+C07] world.copyok      // a stream that broke off is not restored as the leader's table
 //@   before table.(*Manager).Restore assert [C07.recover.restore+C05] name == w.table && typeIs(reader, *snapshot.snapshotFile) && asType(reader, *snapshot.snapshotFile) != nil && asType(reader, *snapshot.snapshotFile).File.rest == asType(reader, *snapshot.snapshotFile).File.whole
-//@   modifies family(CH_len), family(G_any_rest), family(G_any_sdata), family(G_any_slen), family(G_any_nrecv), allelems(uint8), w.engine.Manager.store.rHas, w.engine.Manager.store.rPair, w.engine.Manager.store.nwk, w.engine.Manager.store.wVal, w.engine.Manager.store.wVer, w.engine.Manager.store.wDel, w.engine.Manager.store.wPrevHas, w.engine.Manager.store.wPrev, family(G_any_nrec), family(G_any_leaderOf), w.engine.Manager.nh.lastRes, w.engine.Manager.nh.lastErr, w.engine.Manager.nh.lastCmd, w.engine.Manager.nh.nelem, w.engine.Manager.nh.nseq
+//@   modifies family(CH_len), family(G_any_rest), family(G_any_sdata), family(G_any_slen), family(G_any_nrecv), allelems(uint8), w.engine.Manager.store.rHas, w.engine.Manager.store.rPair, w.engine.Manager.store.nwk, w.engine.Manager.store.wVal, w.engine.Manager.store.wVer, w.engine.Manager.store.wDel, w.engine.Manager.store.wPrevHas, w.engine.Manager.store.wPrev, family(G_any_nrec), family(G_any_rtotal), family(G_any_leaderOf), w.engine.Manager.nh.lastRes, w.engine.Manager.nh.lastErr, w.engine.Manager.nh.lastCmd, w.engine.Manager.nh.nelem, w.engine.Manager.nh.nseq
 //@ func (tableQueueLenStore).Max
 //@   assumed
 //@   modifies nothing
@@ -90,7 +90,7 @@ package replication
 //@ func (*worker).Start$3
 //@   maypanic
 //@   requires *w != nil && (*w).workerFactory != nil && (*w).engine != nil && (*w).engine.Manager != nil && (*w).engine.Manager.store != nil && (*w).engine.Manager.nh != nil && (*w).engine.Manager.log != nil && (*w).snapshotClient != nil && (*w).log != nil && (*w).recoverySemaphore != nil && (*w).engine.NodeHost != nil && (*w).logClient != nil && (*w).metrics.replicationFollowerIndex != nil && (*w).metrics.replicationLeaderIndex != nil && 0 <= (*w).throttle.speed && (*w).throttle.speed < 5
-//@   modifies (*w).engine.Manager.nh.lastRes, (*w).engine.Manager.nh.lastErr, (*w).engine.Manager.nh.lastCmd, (*w).engine.Manager.nh.nelem, (*w).engine.Manager.nh.nseq, family(G_any_rest), family(G_any_sdata), family(G_any_slen), family(G_any_nrecv), family(G_any_nrec), family(G_any_leaderOf), allelems(uint8), (*w).engine.Manager.nh.nsync, (*w).engine.Manager.nh.nstale, (*w).engine.Manager.nh.lastReq, (*w).engine.Manager.nh.lastAns, (*w).engine.NodeHost.lastRes, (*w).engine.NodeHost.lastErr, (*w).engine.NodeHost.lastCmd, (*w).engine.NodeHost.nelem, (*w).engine.NodeHost.nseq, allfields(worker), allfields(replicationThrottle), family(CH_len), world.clock, (*w).engine.Manager.store.rHas, (*w).engine.Manager.store.rPair, (*w).engine.Manager.store.nwk, (*w).engine.Manager.store.wVal, (*w).engine.Manager.store.wVer, (*w).engine.Manager.store.wDel, (*w).engine.Manager.store.wPrevHas, (*w).engine.Manager.store.wPrev
+//@   modifies (*w).engine.Manager.nh.lastRes, (*w).engine.Manager.nh.lastErr, (*w).engine.Manager.nh.lastCmd, (*w).engine.Manager.nh.nelem, (*w).engine.Manager.nh.nseq, family(G_any_rest), family(G_any_sdata), family(G_any_slen), family(G_any_nrecv), family(G_any_nrec), family(G_any_rtotal), family(G_any_leaderOf), allelems(uint8), (*w).engine.Manager.nh.nsync, (*w).engine.Manager.nh.nstale, (*w).engine.Manager.nh.lastReq, (*w).engine.Manager.nh.lastAns, (*w).engine.NodeHost.lastRes, (*w).engine.NodeHost.lastErr, (*w).engine.NodeHost.lastCmd, (*w).engine.NodeHost.nelem, (*w).engine.NodeHost.nseq, allfields(worker), allfields(replicationThrottle), family(CH_len), world.clock, (*w).engine.Manager.store.rHas, (*w).engine.Manager.store.rPair, (*w).engine.Manager.store.nwk, (*w).engine.Manager.store.wVal, (*w).engine.Manager.store.wVer, (*w).engine.Manager.store.wDel, (*w).engine.Manager.store.wPrevHas, (*w).engine.Manager.store.wPrev
 //@   before replication.(*worker).do assert [C15.gate] (*w).leased.v != 0
 // the session used for proposing is derived, on every poll, from the shard the table currently points at
 //@   before replication.(*worker).do assert [C05.session] session == noopS(id) && leaderIndex == idx
@@ -204,6 +204,31 @@ package replication
 //@ func (*worker).Start
 //@   assumed
 //@   modifies nothing
+// what is VERIFIED of Start (secondary contract, checked against the body): the lease routine and the
+// replication routine (both under contract above) are started, once each, for THIS worker
+//@ ghostfield any.nleaseR Int
+//@ ghostfield any.nreplR Int
+//@ spawn (*worker).Start$1
+//@   ensures (*w).nleaseR == old((*w).nleaseR) + 1
+//@   modifies (*w).nleaseR
+//@ spawn (*worker).Start$3
+//@   ensures (*w).nreplR == old((*w).nreplR) + 1
+//@   modifies (*w).nreplR
+//@ import rand "math/rand"
+//@ func time.(Duration).Milliseconds
+//@   assumed
+//@   pure
+//@ func rand.Intn
+//@   assumed
+//@   modifies nothing
+//@ func time.Sleep
+//@   assumed
+//@   modifies world.clock
+//@ func (*worker).Start#spawn
+//@   maypanic
+//@   requires w != nil && w.workerFactory != nil && w.engine != nil && w.engine.Manager != nil && w.engine.Manager.store != nil && w.engine.Manager.nh != nil && w.engine.Manager.log != nil && w.snapshotClient != nil && w.log != nil && w.recoverySemaphore != nil && w.engine.NodeHost != nil && w.logClient != nil && w.metrics.replicationFollowerIndex != nil && w.metrics.replicationLeaderIndex != nil && w.metrics.replicationLeased != nil && 0 <= w.throttle.speed && w.throttle.speed < 5
+//@   ensures [C05.worker.routines+C15] w.nleaseR == old(w.nleaseR) + 1 && w.nreplR == old(w.nreplR) + 1
+//@   modifies w.nleaseR, w.nreplR, world.clock, family(G_any_waited)
 //@ func (*Manager).startWorker
 //@   maypanic
 //@   requires m != nil && m.log != nil && worker != nil && m.workers.registry != nil
